@@ -99,6 +99,16 @@ DESCR = {
  "C04-f": ("Restart from Disconnected does not report Checking", "silence beyond the disconnected timeout, tick (Disconnected), Restart"),
  "C06-e": ("TCP-active remote candidates are kept when active TCP is disabled", "agent with DisableActiveTCP and a peer signalling a tcptype active candidate"),
  "C06-f": ("deleteAllCandidates only walks the configured network types", "agent restricted with NetworkTypes and a remote candidate of another type (IPv6/TCP), then Restart or Failed"),
+ "C05-e": ("a role-conflicting request is also passed to the application's binding-request handler", "BindingRequestHandler option with a handler that approves; a pair already in the checklist"),
+ "C05-f": ("on a lost conflict the selector is re-created only if no pair is selected yet", "agent connected (selected pair), then a conflict it loses"),
+ "C07-e": ("a peer-reflexive candidate is put into the local candidate's source cache before the remote IP filter decides", "RemoteIPFilter refusing an address; an authentic check from it, then application data from it"),
+ "C07-f": ("replacePairRemote loads packetsReceived from packetsSent", "prflx remote selected, traffic with unequal sent/received datagram counts, then the signalled candidate for the same address"),
+ "C08-e": ("activeTCPConn.Close returns the socket's close error before closing its buffers", "active ICE-TCP candidate whose TCP connection died (peer reset) before Close"),
+ "C08-f": ("UniversalUDPMux GetXORMappedAddrContext waits on a timeout derived from context.Background()", "UDPMuxSrflx gathering, STUN server silent, Close/Restart while waiting for the answer"),
+ "C09-e": ("srflx-mapped gatherer skips the location-tracking-filtered first external address without closing the base socket", "srflx rewrite rule matching the wildcard address whose first external IP is IPv6 link-local"),
+ "C09-f": ("TURNS/TCP: cleanup after a failed TLS handshake closes a nil locConn instead of the dialed socket", "turns: URL over TCP, TCP connect succeeds, TLS handshake fails for a reason other than cancellation"),
+ "C10-e": ("the tick of a controlled lite agent runs on the timer goroutine instead of inside the task loop", "lite agent in the controlled role; a tick while another task / API call / inbound message is in progress"),
+ "C10-f": ("GetRemoteCandidates hands out the agent's own array (capacity-clipped slice)", "caller keeps the result; a signalled candidate then supersedes a peer-reflexive one (in-place compaction)"),
 }
 res = {}
 for ln in open('/verif/.work/confirm_results.txt'):
